@@ -62,7 +62,7 @@ Lemma SInv_init pp0 cp0 : SInv cap cc n (init np pp0 cp0).
 Proof.
   constructor; cbn [init gtail progress drained retired ids sstate sdata hcid hidx hpos tk ppc cpc pseq bad]; try lia.
   - intros t. split; [lia | reflexivity].
-  - intros t th. cbn [own_of]. split; discriminate.
+  - intros t th. unfold owns. cbn [own_lo own_hi]. split; [discriminate | lia].
   - intros th. exact Logic.I.
   - intros t v H. discriminate H.
   - intros j Hj. apply N.mod_small. exact Hj.
@@ -126,10 +126,10 @@ Theorem no_ownership_violation pp0 cp0 s :
   reachable (sys cap cc n kk np pp0 cp0) s -> bad s = false.
 Proof. intros Hr. apply (Bad _ _ _ _ (SInv_reachable _ _ _ Hr)). Qed.
 
-(* a ticket has at most one owner, and only between its fetch_add and its state store *)
+(* a ticket has at most one owner (the thread whose claimed run contains it and has not yet stored its state) *)
 Theorem owner_unique pp0 cp0 s t th1 th2 :
   reachable (sys cap cc n kk np pp0 cp0) s ->
-  own_of (ppc s th1) = Some t -> own_of (ppc s th2) = Some t -> th1 = th2.
+  owns (ppc s th1) t -> owns (ppc s th2) t -> th1 = th2.
 Proof.
   intros Hr H1 H2. pose proof (SInv_reachable _ _ _ Hr) as I.
   apply (B_own _ _ _ _ I) in H1. apply (B_own _ _ _ _ I) in H2. congruence.
@@ -157,8 +157,8 @@ Proof.
 Qed.
 
 (* a chunk id is replaced in the table only when the old chunk is retired *)
-Theorem reuse_only_retired pp0 cp0 s u x t ok cur :
-  reachable (sys cap cc n kk np pp0 cp0) s -> ppc s u = PE3 x t ok cur -> cur < retired s.
+Theorem reuse_only_retired pp0 cp0 s u k r cur :
+  reachable (sys cap cc n kk np pp0 cp0) s -> ppc s u = PE3 k r cur -> cur < retired s.
 Proof.
   intros Hr Epc. pose proof (P_inv _ _ _ _ (SInv_reachable _ _ _ Hr) u) as P.
   rewrite Epc in P. cbn [PInv] in P. lia.
